@@ -19,6 +19,7 @@ RULE = ("real aioftp client <-> server transfers on the virtual-time network; sa
         "byte model of the file; after the completion reply a second session re-reads it (RETR, MLST size, MLSD size, LIST "
         "size); when the 226 of an upload is written the back-end file must already be closed.  distinct = distinct "
         "(op, sizes, offset, block size, chunking, segmentation, back end) tuples; non-trivial = payload or file >= 2 bytes.")
+RULE += ("  " + 'Also: a back end returning short reads; 2-3 further sessions downloading the stored file at the same time; read() without a count must return everything up to end of file; client-side limits with one big write.')
 ASSUMPTIONS = ["REST+STOR/APPE on an existing file overwrites in place from the offset (what tests/test_restart.py fixes); "
                "REST beyond the end pads with NUL bytes when something is written",
                "REST on a missing file is an error (451) on every back end"]
